@@ -58,7 +58,9 @@ def run_one(job):
         for p in sorted(PROPS):
             try:
                 R, _ = analyse(p, "quick", d)
-                rules = sorted({f.rule for f in R.findings if not match_known(p, f, known)})
+                # VER-0 is excluded: ast.unparse on 3.12 emits PEP 701 f-strings that do not parse on <= 3.11, which
+                # is an artefact of how the sweep writes its mutants, not a property of the mutation
+                rules = sorted({f.rule for f in R.findings if not match_known(p, f, known) and f.rule != "VER-0"})
                 if rules:
                     fired[p] = rules
                 if R.errors:
